@@ -61,7 +61,7 @@ CLAIMED = {
               "theorem fails when an unreviewed one appears. Exploration (support and failing-input search, not proof): the arithmetic models are compared with the server on a boundary grid, "
               "and a hostile sweep (119 command names x arities x positions x 50 boundary literals x key types, malformed/absurd/deeply nested frames, 64k inputs per quick run) must "
               "leave the process alive, a fresh connection served and canary data intact; a crash is bisected to one command."),
-        note=TB + "Stack cost per level, allocator behaviour under memory pressure, Lua run time (no script time limit: recorded finding) and lock-order deadlocks cannot be exhibited by a theorem; process liveness is explored, not proved.",
+        note=TB + "Stack cost per level, allocator behaviour under memory pressure, Lua memory (no script memory limit: recorded finding, confirmed on a server with capped address space) and lock-order deadlocks cannot be exhibited by a theorem; process liveness is explored, not proved: hostile sweep, split frames, deep nesting through every aggregate, state-left-behind sequences, nine runaway scripts against the 5 s script time limit.",
         ref="DESIGN.md section 5 C06"),
     "C09": dict(
         text=("Proof: decode(encode) = identity for every length below 2^32 (all three length forms by omega, truncation beyond proved as witness), every byte string, every value of "
@@ -142,7 +142,7 @@ CLAIMED = {
               "is one step in every schedule and its calls are contiguous; EVALSHA = EVAL, unknown hash refused; blocking/administrative names are refused inside scripts (table theorems by decide over the "
               "block-list regenerated from lua_engine.rs/executor.rs), sandbox globals removed - 36 Lean theorems; twin servers (direct vs wrapped in 8 script wrappers on 5 databases, full dumps after "
               "every command), call programs, return shapes, binary KEYS/ARGV, SCRIPT LOAD+EVALSHA, every refused name in call and pcall over TCP (9.9k evaluations quick, 159k thorough)."),
-        note=TB + "Executor/handler parity is measured by the twin run, not proved (executor.rs re-implements the commands; 9 parity findings recorded); nil-bulk->nil, status->string and false->:0 are pinned by the repo's own tests and stay recorded findings; no script time limit (finding, never executed here); Lua's own semantics are trusted.",
+        note=TB + "Executor/handler parity is measured by the twin run, not proved (executor.rs re-implements the commands; 9 parity findings recorded); nil-bulk->nil, status->string and false->:0 are pinned by the repo's own tests and stay recorded findings; scripts are cut after 5 s by a count hook (script_cut_keeps_prefix_effects; ten non-terminating shapes run on dedicated servers); Lua's own semantics are trusted.",
         ref="DESIGN.md section 5 C12"),
     "C13": dict(
         text=("Proof: the accounting identity pushed = delivered + lost + stored (multiset) and no duplication for EVERY event history and every variant; FIFO service per key for every history; and for the tree as it is "
